@@ -18,7 +18,7 @@ RULE = ("Random real git repositories (5-40 files, depth <=4; directories named 
         "files and directories, a .gitignore with dir/, *.gen.py and /rooted patterns) x 0-3 positional globs x 0-3 "
         "--ignore globs drawn from the four documented forms x {no diff, diff inside the globs, diff outside the globs, "
         "diff naming an --ignore'd file} x cwd in {root, a subdirectory} x stdin in {real pty, BLOCKWATCH_TERMINAL_MODE, "
-        "pipe}. Files in the expected scope carry one healthy block with one line-count violation; every other file is "
+        "pipe}. Some files are symbolic links to regular files. Files in the expected scope carry one healthy block with one line-count violation; every other file is "
         "poisoned (unbalanced tags or invalid UTF-8). Observed: key set of `list` and of the diagnostics, exit status. "
         "Non-trivial = >=2 different exclusion mechanisms at work and >=1 poisoned file; distinct = hash of (tree, argv, mode).")
 ASSUMPTIONS = [
@@ -152,6 +152,18 @@ def one_case(ctx, r, desc):
                 # rejected as a whole, which is outside this property)
                 files[p] = poisoned(p, r, utf8_only=p in diff_files)
         run.write_files(root, files)
+        # some files are symbolic links to regular files kept in a hidden directory (never walked): a link is a file
+        # under the root like any other, in scope or not by its own path
+        links = []
+        if r.random() < 0.3:
+            for p in r.sample(sorted(walkable), min(len(walkable), r.randint(1, 2))):
+                if p in diff_files:
+                    continue      # git diffs a link's target text, not the content
+                store = ".lnk/%d.%s" % (len(links), p.rsplit(".", 1)[-1])
+                run.write_files(root, {store: files[p]})
+                os.unlink(os.path.join(root, p))
+                os.symlink(os.path.relpath(os.path.join(root, store), os.path.dirname(os.path.join(root, p))), os.path.join(root, p))
+                links.append(p)
         run.git(root, "add", "-A")
         run.git(root, "commit", "-q", "-m", "base")
         diff = b""
@@ -210,8 +222,9 @@ def one_case(ctx, r, desc):
     key = h([paths, argv, mode, cwd_rel, sorted(diff_files), gitignore])
     special = sorted({seg for p in diff_files for seg in p.split("/")[:-1] if seg in ("a", "b", "dir with space", "dots.in.name")})
     sets = {"mode": [mode], "mechanisms": sorted(mechanisms), "cwd": ["root" if not cwd_rel else "subdir"],
+            "symlinks": ["in-scope" if p in scope else "out-of-scope" for p in links],
             "diff_dirs": special, "nglobs_nignores": ["%d/%d" % (len(globs), len(ignores))]}
-    wit = {"paths": paths, "gitignore": gitignore, "argv": argv, "mode": mode, "cwd": cwd_rel, "diff_files": diff_files,
+    wit = {"paths": paths, "gitignore": gitignore, "argv": argv, "mode": mode, "cwd": cwd_rel, "diff_files": diff_files, "symlinks": links,
            "expected_scope": want, "diff": diff.decode("utf-8", "replace")[:3000], "desc": desc}
 
     def bad(sig, summary):
@@ -234,8 +247,8 @@ def one_case(ctx, r, desc):
         extra = [p for p in got if p not in want]
         missing = [p for p in want if p not in got]
         cls = "extra" if extra and not missing else "missing" if missing and not extra else "both"
-        return bad("C15/list-scope-%s/%s" % (cls, _mech_of((extra or missing)[0], hidden, not_ignored, ignores, globs, diff_files)),
-                   "files examined %s != expected scope %s (extra %s, missing %s)" % (got[:8], want[:8], extra[:4], missing[:4]))
+        return bad("C15/list-scope-%s/%s" % (cls, _mech_of((extra or missing)[0], hidden, not_ignored, ignores, globs, diff_files, links)),
+                   "files examined %s != expected scope %s (extra %s, missing %s; symbolic links %s)" % (got[:8], want[:8], extra[:4], missing[:4], links))
     if want:
         d = res.diagnostics()
         if res.cls != "fail" or d is None:
@@ -267,13 +280,15 @@ def _why(err, paths, scope, diff_files):
     return "other"
 
 
-def _mech_of(p, hidden, not_ignored, ignores, globs, diff_files):
+def _mech_of(p, hidden, not_ignored, ignores, globs, diff_files, links=()):
     if p in hidden:
         return "hidden"
     if p not in not_ignored:
         return "gitignored"
     if match_any(ignores, p):
         return "--ignore"
+    if p in links:
+        return "symlink"
     if p in diff_files:
         return "diff-file"
     return "glob"
